@@ -223,29 +223,34 @@ TIE = ("Ties, all run on every check: (1) AST correspondence - for generated fun
        "semantics' events for a focus variable against a real ptera probe. ")
 THM = ("Main theorem `instrument_refines` (Lean, by induction over the syntax, loops by induction on the bound / the "
        "items): for EVERY function of the core fragment (names, tuple/nested/starred targets, attribute and subscript "
-       "stores, augmented and annotated assignment, declarations, walrus, yield, if/while/for/try/with, nested "
-       "def/class/import, return/raise/break/continue), every capture set, every host and handler, every input, "
+       "stores incl. element assignment through a variable with constant or computed index, chained assignment, "
+       "augmented and annotated assignment, declarations, walrus, yield, if/while/for/try/with, nested "
+       "def/class/import, return/raise/break/continue, closures: reads of variables of enclosing functions, which the "
+       "rewritten code shows to the handler at entry without letting it override them), every capture set, every host "
+       "and handler, every input, "
        "generator script and loop bound, the rewritten function ends the same way as the reference semantics with the "
        "same world (ordered side effects), handler state (events) and generator traffic. ")
 NOTE_M2 = ("Modelled, not verified: Python's semantics of the fragment (validated against CPython by the executable "
            "correspondence on generated programs with opaque logged helpers), annotations as static values, globals "
            "immutable during the call (the documented exception), the handler as an arbitrary state machine (M3 is "
-           "its model), one `with` item, no chained assignment / computed subscript of a named container / "
-           "global-nonlocal / closures inside the theorem's fragment (they are inside the AST correspondence and the "
-           "oracles). ")
+           "its model), closure cells and globals as one read-only name space of the host, one `with` item, no "
+           "global / nonlocal statements, annotated assignment to attributes or elements, `yield from`, lambdas and "
+           "comprehensions with bindings inside the theorem's fragment (they are inside the AST correspondence and / or "
+           "the oracles). ")
 
 CLAIMS["C01"] = dict(
     technique="Lean 4: simulation theorem for the source-to-source rewrite (instrument_refines) composed with an erasure theorem for observing handlers (C01_transparent) + AST correspondence with ptera.transform + executable correspondence with CPython and real probes + differential oracle",
     text=M2 + THM + "Erasure theorem (Proofs/Erase*.lean, by induction over the syntax again): with a handler that "
-         "only observes, the reference semantics of a core function without bare declarations is plain Python - globals "
+         "only observes, the reference semantics of a core function without bare declarations whose closure cells hold "
+         "a value when it is called (the rewritten code reads them at entry) is plain Python - globals "
          "read at entry equal globals read at use, re-binding a name to itself after Python's own store is a no-op "
          "because the store leaves the name bound, meta events only touch the handler state. Composition "
          "(C01_transparent): for every such function, every capture set, every host that never hands ptera's marker to "
          "the program, every observing handler, every input, generator script and loop bound, the REWRITTEN function ends "
          "the same way as the UNTOUCHED one, with the same world (ordered side effects), the same values yielded and the "
          "same driver script consumed. C01_transparent_generated instantiates it with the host of the generated programs "
-         "and a recording handler: no hypothesis about hosts is left. Outside the theorem's fragment (chained assignment, "
-         "computed subscripts of a named container, global/nonlocal, closures) the property rests on the correspondence "
+         "and a recording handler: no hypothesis about hosts is left. Outside the theorem's fragment (global / nonlocal, "
+         "annotated assignment to attributes or elements, opaque statement forms) the property rests on the correspondence "
          "and the differential oracle: untouched function vs tooled / tooled in place / probed on random subsets of its "
          "variables (result or exception, yields, ordered helper log, object and global state). " + TIE,
     design_ref="DESIGN.md section 5, C01",
@@ -300,9 +305,15 @@ CLAIMS["C06"] = dict(
          "rewritten function; C06_one_end_per_iteration: as many ends as begins; C06_generic_capture_symmetric). "
          "#yield / #receive: another instance of the invariant theorem, whose kit treats a yield expression as one "
          "step — along the whole activation no #receive occurs without the #yield it answers directly before it, "
-         "whatever the driver does (C06_yield_receive_paired, C06_rewritten_yield_receive_paired). NOT proved: "
-         "#value exactly once per normal completion (false: F7c, F7d); the oracle checks the merged meta-event "
-         "stream of generated programs against the bracket grammar. " + TIE,
+         "whatever the driver does (C06_yield_receive_paired, C06_rewritten_yield_receive_paired). #value: a third "
+         "relational induction (Proofs/ValueOnce.lean) — for every function of the fragment WITHOUT with blocks and "
+         "finally clauses, every capture set taking #enter/#exit/#error/#value, input and driver script, the #value "
+         "events of the whole activation are exactly one, carrying the value returned, when the activation ends by "
+         "returning, and none when it ends any other way (C06_value_once_partial, C06_rewritten_value_once_partial, "
+         "C06_value_count_partial). The FULL statement is false of model and implementation alike: "
+         "C06_value_twice_with_finally is the kernel-evaluated witness in the model (try: return 1 finally: return 2 "
+         "records two #value events), findings F7c / F7d the same inputs replayed on ptera by the check. The oracle "
+         "checks the merged meta-event stream of generated programs against the bracket grammar. " + TIE,
     design_ref="DESIGN.md section 5, C06",
     note=NOTE_M2 + "Known finding F7c (a return in a finally block cancels an exception after #error was delivered). "
          "An abandoned generator (closed, then yields again) gets no #exit: Python never resumes it.",
